@@ -156,34 +156,43 @@ def _engineered_population(case, S, smp, rng, nw, key0):
     fields = random.normal(sub, shape=(smp.n_prop_steps, nw, hd["chol"].shape[0]))
     thr = np.sqrt(2.0 / prop.dt)
     base = trial.get_init_walkers(wd, nw, restricted=(wt == "rhf"))
+    # eager calls of the batched measurement routines re-trace their lax.scan bodies on every call (a new executable each time):
+    # in a long search loop that exhausts the process' memory maps, so the loop uses jitted closures
+    import jax
+
+    j_ovlp = jax.jit(lambda w_: trial.calc_overlap(w_, wd))
+    j_ene = jax.jit(lambda w_: trial.calc_energy(w_, hd, wd))
+    pd_base = prop.init_prop_data(trial, wd, hd, base)
     chosen = [None] * nw
     want = ["imag", "real", "ok", "imag", "real", "ok", "ok", "ok"]
     found = {"imag": 0, "real": 0}
     e_est = None
-    for attempt in range(40):
-        amp = rng.choice([2.0, 5.0, 20.0])
+    for attempt in range(400):
+        amp = float(rng.choice([0.3, 0.6, 1.0, 2.0, 4.0]))
+        # real perturbations give (nearly) real local energies, imaginary / complex ones large imaginary parts
+        cr, ci = [(1.0, 0.0), (1.0, 1.0), (0.0, 1.0)][attempt % 3]
         if wt == "rhf":
-            w = np.asarray(base) + amp * (rng.normal(size=(nw, norb, na)) + 1j * rng.normal(size=(nw, norb, na))) * (rng.random((nw, 1, 1)) < 0.8)
+            w = np.asarray(base) + amp * (cr * rng.normal(size=(nw, norb, na)) + 1j * ci * rng.normal(size=(nw, norb, na)))
             wj = jnp.array(w)
         else:
-            wu = np.asarray(base[0]) + amp * (rng.normal(size=(nw, norb, na)) + 1j * rng.normal(size=(nw, norb, na))) * (rng.random((nw, 1, 1)) < 0.8)
-            wdn = np.asarray(base[1]) + amp * (rng.normal(size=(nw, norb, nb)) + 1j * rng.normal(size=(nw, norb, nb)))
+            wu = np.asarray(base[0]) + amp * (cr * rng.normal(size=(nw, norb, na)) + 1j * ci * rng.normal(size=(nw, norb, na)))
+            wdn = np.asarray(base[1]) + amp * (cr * rng.normal(size=(nw, norb, nb)) + 1j * ci * rng.normal(size=(nw, norb, nb)))
             wj = [jnp.array(wu), jnp.array(wdn)]
-        pd = prop.init_prop_data(trial, wd, hd, base)
+        pd = afqmc.copy_pd(pd_base)
         e_est = float(pd["e_estimate"])
         pd["walkers"] = wj
-        pd["overlaps"] = trial.calc_overlap(wj, wd)
+        pd["overlaps"] = j_ovlp(wj)
         for st in range(smp.n_prop_steps):
             pd = prop.propagate(trial, hd, pd, fields[st], wd)
         pd = prop.orthonormalize_walkers(pd)
-        el = np.asarray(trial.calc_energy(pd["walkers"], hd, wd))
+        el = np.asarray(j_ene(pd["walkers"]))
         wts = np.asarray(pd["weights"])
         for i in range(nw):
-            if chosen[i] is not None or not np.isfinite(el[i]):
+            if chosen[i] is not None or not np.isfinite(el[i]) or not wts[i] > 0:
                 continue
             dre, dab = abs(el[i].real - e_est), abs(el[i] - e_est)
             cls = "real" if dre > thr else ("imag" if dab > thr else "ok")
-            if cls == want[i] and (cls == "ok" or wts[i] > 0 or True):
+            if cls == want[i]:
                 chosen[i] = (w[i] if wt == "rhf" else (wu[i], wdn[i]))
                 if cls in found:
                     found[cls] += 1
